@@ -44,6 +44,8 @@ M = {
                                               "        _mesa_logger.info(f\"calling model.step for timestep {self.steps} \")\n        # Call the original user-defined step method\n        self._user_step(*args, **kwargs)\n        self.steps += 1\n"),
     "M32-strong-ref-to-function": (EV, "            function = ref(function)", "            function = (lambda f: (lambda: f))(function)"),
     "M33-viz-run-until-steps": ("mesa/visualization/solara_viz.py", "        else:\n            for _ in range(render_interval.value):\n                simulator.run_for(1)\n", "        else:\n            for _ in range(render_interval.value):\n                simulator.run_until(model.value.steps + 1)\n"),
+    "M34-abm-run-until-without-setup-check": (SIM, "        if self.model is None:\n            raise Exception(\n                \"simulator has not been setup, call simulator.setup(model) first\"\n            )\n\n        while True:\n            try:\n                event = self.event_list.pop_event()\n            except IndexError:\n                self.time = end_time\n                break\n\n            # fixme",
+                                              "        while True:\n            try:\n                event = self.event_list.pop_event()\n            except IndexError:\n                self.time = end_time\n                break\n\n            # fixme"),
     "M26-run-for-from-start": (SIM, "end_time = self.time + time_delta", "end_time = self.start_time + time_delta if self.time == self.start_time else self.time + time_delta + 0"),
 }
 
